@@ -269,11 +269,25 @@ def same_float(a, b):
     return bits(a) == bits(b)
 
 
+def as_float(a):
+    """Series -> float64 array; exact for float64/float32/int.  An object series may hold anything the equations
+    produced (Python's `(-2.0) ** 0.5` is complex): non-real elements become NaN."""
+    try:
+        return np.asarray(a, dtype=float)
+    except (TypeError, ValueError):
+        def one(x):
+            try:
+                return float(x)
+            except (TypeError, ValueError):
+                return float('nan')
+        return np.array([one(x) for x in a], dtype=float)
+
+
 def same_arrays(d1, d2):
     """Bit-exact (NaN-aware) equality of two name -> array dicts; returns list of differing (name, pos, a, b)."""
     diffs = []
     for name in d1:
-        a, b = np.asarray(d1[name], dtype=float), np.asarray(d2[name], dtype=float)
+        a, b = as_float(d1[name]), as_float(d2[name])
         if a.shape != b.shape:
             diffs.append((name, -1, a.shape, b.shape))
             continue
@@ -567,13 +581,24 @@ def verbs_of(e, acc=None):
     return acc
 
 
-def with_inline_verbatim(rng, prog):
+# Fragments whose TEXT contains what the translation pipeline itself uses as markers / metacharacters: the `{}`
+# placeholder of the template, format fields, regex back-references, `$`, backslashes, `[t]`, `self`, `=`/`==`, term
+# and index look-alikes inside strings.  All are accepted by /repo HEAD and are numeric primaries.
+META_VERBS = ["bool({})", "len({})", "{1: 2}[1]", "len(set())", "len('{0}')", "len('{{}}')", "len('%s')", r"len('\1')",
+              r"len('\\')", "len('$')", "len('[t]')", "len('self')", "float(1 == 1)", "int(2 >= 1)", "len('a=b')",
+              "len('{X}')", "len('<e>')", "len('Y[-1]')", "dict(a=1)['a']", "len(f'{1}')", "float('{}'.format(1))",
+              "(lambda q: q)(2)", "len('{} {}')", "len('()')", "len(')(')"]
+
+
+def with_inline_verbatim(rng, prog, pool=None):
     """The program with inline verbatim fragments (backticks inside an ordinary equation): number literals are
-    replaced by fragments from gen_scripts.VERBS with probability 1/2; an equation left without one gets `+ fragment`
-    or `fragment * (...)` so that every equation of the result carries at least one."""
+    replaced by fragments from gen_scripts.VERBS + META_VERBS with probability 1/2; an equation left without one gets
+    `+ fragment` or `fragment * (...)`: every equation of the result carries at least one, first / middle / last."""
+    pool = pool or (list(gs.VERBS) + META_VERBS)
+
     def mp(e):
         if isinstance(e, gs.Num):
-            return gs.Verb(rng.choice(gs.VERBS)) if rng.random() < 0.5 else e
+            return gs.Verb(rng.choice(pool)) if rng.random() < 0.5 else e
         if isinstance(e, gs.Un):
             return gs.Un(e.op, mp(e.e))
         if isinstance(e, gs.Bin):
@@ -590,7 +615,7 @@ def with_inline_verbatim(rng, prog):
             continue
         rhs = mp(st.rhs)
         if not verbs_of(rhs):
-            v = gs.Verb(rng.choice(gs.VERBS))
+            v = gs.Verb(rng.choice(pool))
             rhs = gs.Bin('+', rhs, v) if rng.random() < 0.5 else gs.Bin('*', v, rhs)
         out.append(gs.Equation(st.lhs, rhs))
     return gs.Program(out)
@@ -602,6 +627,77 @@ def shadowed_function_roots(prog):
     although tokens, code and evaluation are unambiguous."""
     roots = {f.split('.')[0] for f in called_functions(prog)}
     return roots & set(gs.all_names(prog))
+
+
+# ---------------------------------------------------------------------------------------------------------------
+# identifier LENGTH and program SCALE
+
+P32 = 'household_disposable_income_real'                         # 32 characters
+P64 = P32 + '_per_capita_of_working_age_adult'                  # 64 characters
+LONG_NAMES = [P32, P32 + 's', P32 + '_p', P32[:31], P32[:28] + 'x', P32[:27], P64, P64 + 's', P64 + '_2', P64[:63],
+              'q' * 64, 'q' * 63 + 'r', 'a' * 27, 'b' * 28, 'k' * 40, 'z' * 31 + '1', 'z' * 31 + '2', 'n' * 33]
+LONG_FUNCS = {'np.abs': 'np.ma.core.umath.absolute', 'np.sqrt': 'np.ma.core.umath.sqrt', 'np.maximum': 'np.ma.core.umath.maximum'}
+for _short, _long in LONG_FUNCS.items():
+    gs.FUNCS.setdefault(_long, gs.FUNCS.get(_short))
+
+
+def map_calls(e, f):
+    if isinstance(e, gs.Call):
+        return gs.Call(f(e.fname), tuple(map_calls(a, f) for a in e.args))
+    if isinstance(e, gs.Un):
+        return gs.Un(e.op, map_calls(e.e, f))
+    if isinstance(e, gs.Bin):
+        return gs.Bin(e.op, map_calls(e.l, f), map_calls(e.r, f))
+    if isinstance(e, gs.IfElse):
+        return gs.IfElse(map_calls(e.a, f), map_calls(e.c, f), map_calls(e.b, f))
+    return e
+
+
+def length_bucket(prog):
+    k = max(len(nm) for nm in gs.all_names(prog))
+    return '<=8' if k <= 8 else '9-27' if k <= 27 else '28-32' if k <= 32 else '33-63' if k <= 63 else '>=64'
+
+
+def with_long_names(rng, prog):
+    """Series renamed to identifiers of up to 64+ characters, several sharing a 32- or 64-character prefix; namespaced
+    calls given their long dotted spelling."""
+    names = gs.all_names(prog)
+    new = rng.sample(LONG_NAMES, min(len(names), len(LONG_NAMES)))
+    rng.shuffle(names)
+    out = rename_series(prog, dict(zip(names, new)))
+    f = lambda fn: LONG_FUNCS.get(fn, fn)  # noqa: E731
+    return gs.Program([gs.Equation(st.lhs, map_calls(st.rhs, f)) if isinstance(st, gs.Equation) else st
+                       for st in out.statements])
+
+
+def many_terms_program(rng, k=55):
+    """One equation with k+ terms (distinct series of mixed name lengths, lags and leads, parameters and errors)."""
+    terms = []
+    for i in range(k):
+        nm = rng.choice(['x%d' % i, 'x%d_%s' % (i, 'w' * rng.randint(20, 40)), P32 + '_%d' % i])
+        kind = rng.choice(['var', 'var', 'var', 'param', 'error'])
+        t = gs.Term(kind, nm, rng.choice([None, 0, -1, -2, 1, -1]))
+        terms.append(gs.Bin('*', gs.Num(rng.choice(gs.NUMS)), t) if i % 3 else t)
+    rhs = terms[0]
+    for i, t in enumerate(terms[1:]):
+        rhs = gs.Bin('+' if i % 4 else '-', rhs, t)
+    return gs.Program([gs.Equation(gs.Term('var', 'Y', None), rhs)])
+
+
+def many_equations_program(rng, k=110):
+    """k+ equations: a chain with Gauss-Seidel dependencies in both directions of the statement order."""
+    V = lambda i, ix=None: gs.Term('var', 'v%03d' % i if i % 7 else 'v%03d_%s' % (i, 'u' * 30), ix)  # noqa: E731
+    eqs = []
+    for i in range(k):
+        prev = V((i - 1) % k, rng.choice([None, -1])) if i else gs.Term('var', 'X', -1)
+        nxt = V((i + 1) % k, -1)
+        rhs = gs.Bin('+', gs.Bin('*', gs.Num(rng.choice(['0.5', '0.25', '0.1'])), prev),
+                     gs.Bin('*', gs.Term('param', 'a%d' % (i % 5), None), nxt))
+        if i % 10 == 0:
+            rhs = gs.Bin('+', rhs, gs.Term('var', 'X', rng.choice([None, 1])))
+        eqs.append(gs.Equation(V(i), rhs))
+    rng.shuffle(eqs)
+    return gs.Program(eqs)
 
 
 # ---------------------------------------------------------------------------------------------------------------
@@ -642,7 +738,7 @@ def data_plan(case, prog, n):
     data0 = gs.random_data(rng, prog, n)
     names = list(data0)
     plan = {'regime': 'moderate', 'modes': {nm: 'inplace' for nm in names}, 'share': None, 'prov': 'fresh',
-            'copy_after': False}
+            'copy_after': False, 'dtype': 'float64'}
     if not case.get('vary', True):
         return data0, plan
     r = random.Random(case['data_seed'] + ':plan')
@@ -651,6 +747,22 @@ def data_plan(case, prog, n):
         data0 = regime_data(r, names, n, plan['regime'])
     plan['modes'] = {nm: r.choice(FILL_MODES) for nm in names}
     plan['prov'] = r.choice(['fresh'] * 7 + ['copy', 'copy', 'reindexed'])
+    # dtype of the instance: every dtype HEAD evaluates with.  The data are drawn representable in it (the script's
+    # meaning is NumPy scalar arithmetic of that dtype on those values)
+    plan['dtype'] = r.choice(['float64'] * 7 + ['float32', 'float32', 'int', 'object'])
+    if plan['dtype'] != 'float64':
+        if plan['prov'] == 'reindexed':
+            plan['prov'] = 'copy'
+        if plan['dtype'] == 'int':
+            plan['regime'] = 'integers'
+            data0 = {nm: np.array([r.choice([1, 2, 3, 4, 5, 7, 9, -2, 0]) for _ in range(n)], dtype=np.int64) for nm in names}
+        elif plan['dtype'] == 'float32':
+            if plan['regime'] not in ('moderate', 'integers', 'signed-zeros'):
+                plan['regime'] = 'moderate'
+                data0 = gs.random_data(r, prog, n)
+            data0 = {nm: a.astype(np.float32) for nm, a in data0.items()}
+        else:
+            data0 = {nm: np.array([float(x) for x in a], dtype=object) for nm, a in data0.items()}
     plan['copy_after'] = r.random() < 0.1
     if len(names) >= 2 and r.random() < 0.45:
         grp = r.sample(names, r.randint(2, min(3, len(names))))
@@ -664,8 +776,11 @@ def data_plan(case, prog, n):
     shared = set(plan['share'][1]) if plan['share'] else set()
     for nm, mode in plan['modes'].items():
         if mode == 'scalar' and nm not in shared:
-            data0[nm] = np.full(n, data0[nm][0])
+            data0[nm] = np.array([data0[nm][0]] * n, dtype=data0[nm].dtype)
     return data0, plan
+
+
+DTYPES = {'float64': float, 'float32': np.float32, 'int': int, 'object': object}
 
 
 def build_filled(Model, span, data0, plan):
@@ -681,8 +796,11 @@ def build_filled(Model, span, data0, plan):
     kw = {nm: data0[nm].copy() for nm, md in modes.items() if md == 'kwargs' and nm not in followers} \
         if plan['prov'] == 'fresh' else {}
 
+    dt = DTYPES[plan.get('dtype', 'float64')]
+    dkw = {} if dt is float else {'dtype': dt}
+
     def make(sp):
-        return Model(sp, **kw) if len(sp) == n else Model(sp)
+        return Model(sp, **dkw, **kw) if len(sp) == n else Model(sp, **dkw)
     with warnings.catch_warnings(), np.errstate(all='ignore'):
         warnings.simplefilter('ignore')
         m = sc.with_provenance(make, span, plan['prov'], names)
@@ -693,7 +811,7 @@ def build_filled(Model, span, data0, plan):
         a = data0[nm].copy()
         md = modes[nm]
         if share and nm == share[1][0] and share[0] == 'slice-of-bigger':
-            big = np.concatenate([np.zeros(2), a, np.zeros(1)])
+            big = np.concatenate([np.zeros(2, dtype=a.dtype), a, np.zeros(1, dtype=a.dtype)])
             a = big[2:2 + n]
         handed[nm] = a
         if md == 'list':
